@@ -185,3 +185,97 @@ class Gen:
 
 def dispatch_cpp(S):
     return Gen(S).generate()
+
+
+# ------------------------------------------------- constant evaluation (C02) --
+
+CX_PRELUDE = r"""
+// generated by tools/viewgen.py: TLC's decode vectors as static_asserts
+// (replay at compile time; C++20: accessors are constexpr)
+#include <bit>
+#include <cstdint>
+#include <type_traits>
+namespace vh_cx
+{
+template<typename G, typename I>
+constexpr auto nth(G g, I i)
+{
+    auto it = g.begin();
+    for(I k = 0; k < i; ++k)
+        ++it;
+    return *it;
+}
+template<typename T>
+constexpr std::uint64_t bits_of(T v)
+{
+    if constexpr(std::is_same_v<T, float>)
+        return std::bit_cast<std::uint32_t>(v);
+    else if constexpr(std::is_same_v<T, double>)
+        return std::bit_cast<std::uint64_t>(v);
+    else
+        return static_cast<std::uint64_t>(static_cast<std::make_unsigned_t<T>>(v));
+}
+template<typename T>
+constexpr std::uint64_t bits(T v)
+{
+    if constexpr(std::is_enum_v<T>)
+        return bits_of(static_cast<std::underlying_type_t<T>>(v));
+    else if constexpr(sbepp::is_set_v<T>)
+        return bits_of(*v);
+    else
+        return bits_of(v.value());
+}
+} // namespace vh_cx
+"""
+
+
+class CxGen(Gen):
+    """decode vectors -> static_asserts over constexpr buffers (names only;
+    every expected value is taken from the vector, i.e. from TLC)"""
+
+    def __init__(self, S):
+        Gen.__init__(self, S)
+        self.leafexpr = {}   # (msg, level path, leaf path) -> (accessor chain, kind)
+        for m in S["messages"]:
+            self._index(m["name"], m, [])
+
+    def _index(self, mname, lv, path):
+        for (lp, chain, acc, kind) in self.level_leaves(lv):
+            self.leafexpr[(mname, "/".join(path), "/".join(lp))] = (chain + [acc], kind)
+        for g in lv.get("groups", []):
+            self._index(mname, g, path + [g["name"]])
+
+    def nav(self, level, ip):
+        e = "m"
+        for name, i in zip(level, ip):
+            e = "vh_cx::nth(%s.%s(), %d)" % (e, name, i - 1)
+        return e
+
+    def source(self, vectors, limit=60000):
+        L = ["#include <%s/%s.hpp>" % (self.ns, self.ns), CX_PRELUDE]
+        n = 0
+        for vi, v in enumerate(vectors):
+            if v.get("kind") != "decode" or n >= limit:
+                continue
+            size, v0 = v["size"], v["v0"]
+            img = v["buf"][v0:v0 + size]
+            L.append("constexpr char cxbuf_%d[] = {%s};" % (vi, ",".join("(char)%d" % b for b in img) or "0"))
+            M = "::%s::messages::%s<const char>" % (self.ns, v["msg"])
+            for inst in v["insts"]:
+                lvl = "/".join(inst["level"])
+                for leaf in inst["leaves"]:
+                    key = (v["msg"], lvl, "/".join(leaf["path"]))
+                    chain, kind = self.leafexpr[key]
+                    expr = self.nav(inst["level"], inst["ip"]) + "".join(".%s()" % c for c in chain)
+                    tag = "cx %s:%s:%s ip=%s vec=%d" % (v["msg"], lvl, "/".join(leaf["path"]), inst["ip"], vi)
+                    if kind == "array":
+                        conds = " && ".join("static_cast<unsigned char>(a[%d]) == %d" % (i, b) for i, b in enumerate(leaf["val"])) or "true"
+                        L.append("static_assert([]{ constexpr %s m{cxbuf_%d, %d}; auto a = (%s).raw(); return %s; }(), \"%s\");" % (M, vi, size, expr, conds, tag))
+                    else:
+                        lit = "0x" + "".join("%02x" % b for b in reversed(leaf["val"])) + "ull"
+                        L.append("static_assert([]{ constexpr %s m{cxbuf_%d, %d}; return vh_cx::bits(%s) == %s; }(), \"%s\");" % (M, vi, size, expr, lit, tag))
+                    n += 1
+            L.append("static_assert([]{ constexpr %s m{cxbuf_%d, %d}; return sbepp::size_bytes(m) == %d; }(), \"cx %s:size vec=%d\");" % (M, vi, size, size, v["msg"], vi))
+            n += 1
+        L.append("int main(){}")
+        return "\n".join(L) + "\n", n
